@@ -167,6 +167,8 @@ func doDump(P *Program, what string) {
 		}
 	case what == "headfields":
 		dumpHeadFields(P)
+	case what == "headparams":
+		dumpHeadParams(P)
 	case what == "rejtable":
 		// prints the reasons of all verification trees in the format of rejections_table.txt (for review, not used at run time)
 		var names []string
